@@ -1,1 +1,14 @@
 //! Verification hooks (`--cfg rustrtc_verif` only): srtp.
+use crate::rtp::RtpHeader;
+
+/// `RtpHeader::write_to` into a fresh buffer of `encoded_len()` bytes (both are `pub(crate)`).
+pub fn header_bytes(header: &RtpHeader, has_padding: bool) -> Vec<u8> {
+    let mut out = vec![0u8; header.encoded_len()];
+    header.write_to(has_padding, &mut out[..]);
+    out
+}
+
+/// `RtpHeader::encoded_len`.
+pub fn header_encoded_len(header: &RtpHeader) -> usize {
+    header.encoded_len()
+}
